@@ -75,8 +75,18 @@ func c04Gen(rng *mrand.Rand) c04Case {
 	switch rng.Intn(8) {
 	case 0:
 		c.disable = true
-		if rng.Intn(2) == 0 {
+		// (ARI disabled: whatever renewal information the certificate still carries — a window, a
+		// selected time from before the switch was flipped — must not matter)
+		switch rng.Intn(4) {
+		case 0:
 			c.hasWs, c.hasWe, c.ws, c.we = true, true, c.nb+L/2, c.nb+L/2+3600e9
+		case 1:
+			s := c.nb + rng.Int63n(L+1)
+			w := (2 + rng.Int63n(3*86400)) * 1e9
+			c.hasWs, c.hasWe, c.ws, c.we = true, true, s, s+w
+			c.hasSel, c.sel = true, s+rng.Int63n(w)
+		case 2:
+			c.hasSel, c.sel = true, c.nb+rng.Int63n(L+1)
 		}
 	case 1: // none
 	case 2, 3: // window, no selected time
